@@ -1119,15 +1119,16 @@ class FuncContent:
                 )
             append_commands(self.__commands, "schedule")
             append_commands(self.__commands, self.command[key_pos + 1].string)
+            func = convention_jmc_to_mc(
+                self.command[key_pos + 2], self.tokenizer, self.prefix
+            )
+            self.lexer.datapack.functions_called[func] = (
+                self.command[key_pos + 2],
+                self.tokenizer,
+                self.prefix,
+            )
             append_commands(
-                self.__commands,
-                f"{
-                    self.lexer.datapack.namespace}:{
-                    convention_jmc_to_mc(
-                        self.command[
-                            key_pos + 2],
-                        self.tokenizer,
-                        self.prefix)}",
+                self.__commands, self.lexer.datapack.format_func_path(func)
             )
             if self.command[key_pos + 1].string == "clear":
                 if len(self.command) > key_pos + 4:
